@@ -61,7 +61,9 @@ where
         // the reference gets room to spare: if the documented bound were too small only the
         // facade, which allocates exactly the bound, would fail
         let size = <T::Options as lexical_core::WriteOptions>::buffer_size::<T, F>(o);
-        let mut buf = vec![0u8; size.max(lexical_core::BUFFER_SIZE) + 256];
+        // prefilled with ASCII zeros, unlike the facade's zero-filled Vec: a writer that reads bytes it has not
+        // written (seeded change C17-K) then answers differently on the two sides
+        let mut buf = vec![b'0'; size.max(lexical_core::BUFFER_SIZE) + 256];
         let n = lexical_core::write_with_options::<T, F>(v, &mut buf, o).len();
         buf.truncate(n);
         buf
@@ -189,7 +191,7 @@ where
     // and a constant that is too small must not make both sides panic alike (seeded change C17-G). The default
     // API has no documented panic, so a panic on either side is a difference.
     let core = guard(|| {
-        let mut buf = vec![0u8; <T as lexical_core::FormattedSize>::FORMATTED_SIZE_DECIMAL.max(lexical_core::BUFFER_SIZE) + 64];
+        let mut buf = vec![b'0'; <T as lexical_core::FormattedSize>::FORMATTED_SIZE_DECIMAL.max(lexical_core::BUFFER_SIZE) + 64];
         let n = lexical_core::write(v, &mut buf).len();
         buf.truncate(n);
         buf
